@@ -21,8 +21,8 @@ LEVEL = 'proof'
 RULE = ('probe machine: every composition of a menu of 75 (1..5 functors: probes of arity 1..5 in every position, swap/dup/dig/bury left-most, in the middle and right-most, '
         'every parenthesisation of 3- and 4-chains, (f*g)*(h*k), prebuilt composition blocks multiplied with themselves / each other / functors) x every split of the operand list into chunks '
         '(exact, over- and under-supplied), attribute/operand interleavings for arity 1..5; functors: 43 functors of array/functional (indexing, ufunc, reduce, accumulate, outer, matmul, pooling, norms, activations) '
-        'x every curry split and attribute-before/after-operand form vs the direct view, random shapes dim 1..4; extraction: 67 view trees of depth 1..4 with the sub-view in every operand position of unary / binary / ternary nodes, '
-        'number-valued sub-views (reduce_add / reduce_maximum / sum over all axes) as first and non-first operands of binary ufuncs alone, nested, under and over other nodes, with repeated and aliased leaves, number literal operands in either position, where with a number-valued condition '
+        'x every curry split and attribute-before/after-operand form vs the direct view, random shapes dim 1..4; extraction: 84 view trees of depth 1..4 with the sub-view in every operand position of unary / binary / ternary nodes, '
+        'number-valued sub-views (reduce_add / reduce_maximum / sum over all axes) as first and non-first operands of binary ufuncs alone, nested, under and over other nodes, with repeated and aliased leaves, number literal operands in either position, where with a number-valued condition, unary ufuncs whose op carries run-time parameters (8 parametrised activations, two non-default values each, alone / inner / outer node / first / non-first operand / two in one chain; float leaves, binary32 bit patterns compared within tolerance) '
         '(operand identity by address, static arity, apply(composition, operands) vs view, compute graphs incl. aliased leaves). non-trivial = more than one functor or more than one chunk; every functor / extraction case')
 EXHAUSTIVE = {'quick': False, 'thorough': False}
 ANCHORS = {'NmVerif.Functional.applyFn': 'functional::apply_function_t<functor_t>::operator() (functor.hpp:368-428), functor_t::operator[] / operator()',
@@ -31,12 +31,13 @@ ANCHORS = {'NmVerif.Functional.applyFn': 'functional::apply_function_t<functor_t
            'NmVerif.Functional.swapF/dupF/digF/buryF': 'combinator::swap / dup / dig_n / bury_n (combinator.hpp)',
            'NmVerif.Functional.View.compile': 'functional::get_function_composition (function_composition.hpp:14-128)',
            'NmVerif.Functional.View.dispatch': 'the if-constexpr chain over the operand kind in both get_function_composition_t specialisations (function_composition.hpp:55-65, 106-124): alias / view / number-or-array-that-is-not-a-view, in that order',
+           'NmVerif.Functional.View.opsPost / VFun.bindAttrs': 'functional::get_function = functor[view.attributes()] (functional/ufunc/ufunc.hpp:100-130, indexing.hpp, …); for ufunc views view::ufunc_t::attributes() = args::ufunc{op} (view/ufunc/ufunc.hpp:207-210) is the only carrier of the run-time parameters of the op',
            'NmVerif.Functional.View.operandsOf': 'functional::get_function_operands (functor.hpp:776-812)',
            'NmVerif.Functional.Comp.arity': 'functor_composition_t::arity (functor.hpp:134-146), demanded equal to the operand count by functional::apply (functor.hpp:833-835)',
            'NmVerif.Functional.IView.graph': 'functional::get_compute_graph (compute_graph.hpp:14-275) over utility::ct_map / ct_digraph',
            'NmVerif.Functional.generateAlias': 'index::generate_alias (index/alias.hpp:60-88)'}
 MANIFEST = dict(
-    text='Proof: Lean theorems over ARBITRARY functors (any arity, any operand/attribute types): currying in every split equals one call (curry_any_split, curry_chunks), composition = apply the right-most functor and pass the rest on (comp_apply, comp_two), parenthesisation irrelevant (comp_assoc), combinators are the stated permutations, and a compiler-correctness theorem for extraction (compile_correct/compile_frame: extracted composition applied to extracted operands = host evaluation, by induction on the view tree) on the trees where it holds — with a machine-checked counterexample outside — and compile_arity (the static arity of the extracted composition is the number of extracted operands for every well-formed tree, so functional::apply compiles), compile_one_functor_per_op (one functor per operation, none for arrays / aliases / literals) and operand_dispatch (the type-trait chain applied to every operand never drops the composition of a view, in particular not of a number-valued view, which is a number and a view at once); the view trees of these theorems contain every operand kind the code distinguishes (host array, alias, number literal, array-valued view, number-valued view); tied to the C++ by differential runs of the real functor machinery (probe functors), of the array/functional functors against direct view calls, and of extraction / operand identity / compute graphs on view trees.',
+    text='Proof: Lean theorems over ARBITRARY functors (any arity, any operand/attribute types): currying in every split equals one call (curry_any_split, curry_chunks), composition = apply the right-most functor and pass the rest on (comp_apply, comp_two), parenthesisation irrelevant (comp_assoc), combinators are the stated permutations, and a compiler-correctness theorem for extraction (compile_correct/compile_frame: extracted composition applied to extracted operands = host evaluation, by induction on the view tree) on the trees where it holds — with a machine-checked counterexample outside — and compile_arity (the static arity of the extracted composition is the number of extracted operands for every well-formed tree, so functional::apply compiles), compile_one_functor_per_op (one functor per operation, none for arrays / aliases / literals), compile_preserves_params (the composition in execution order is the post-order list of the operations of the tree, each functor with the attribute list of its view: run-time parameters of the op of a ufunc are never lost or exchanged) and operand_dispatch (the type-trait chain applied to every operand never drops the composition of a view, in particular not of a number-valued view, which is a number and a view at once); the view trees of these theorems contain every operand kind the code distinguishes (host array, alias, number literal, array-valued view, number-valued view); tied to the C++ by differential runs of the real functor machinery (probe functors), of the array/functional functors against direct view calls, and of extraction / operand identity / compute graphs on view trees.',
     note='Lean kernel + propext/Classical.choice/Quot.sound. Node-id uniqueness of the compute graph is not a theorem (ids are hashes mod 1033 and graph-size counters): checked per explored program. Known findings: extraction is wrong when a view operand is not the first operand (also for view::softmax of the library itself; repair proposed: fixes/C14-extract.nonfirst-view-operand.diff, follow-up on branch w4/c1314-postfix); compute-graph ids of sibling sub-views over un-aliased leaves collide (no small repair: ids are part of the view type). Repaired: dangling reference in get_function_composition (regression programs kept; ASan build in the thorough tier).',
     technique='Lean 4 proofs over an abstract stack machine (compiler correctness by mutual structural induction) + differential correspondence')
 ASSUMPTIONS = ['functors are pure functions of (attributes, operands)',
@@ -44,13 +45,17 @@ ASSUMPTIONS = ['functors are pure functions of (attributes, operands)',
 PARTIAL = []
 
 
+def FLT(g):
+    return ['-DC13_ELEM_FLOAT'] if g in FLOAT_GROUPS else []
+
+
 def harness_specs(tier):
     san = []
     if tier == 'thorough':
         # extraction under ASan + UBSan (lifetime errors of get_function_composition / get_function_operands are results)
-        san = [dict(name='h_c14_ext%d_san' % g, src='h_c14_ext.cpp', flavour='san', extra=['-DC14_GROUP=%d' % g]) for g in SAN_GROUPS]
+        san = [dict(name='h_c14_ext%d_san' % g, src='h_c14_ext.cpp', flavour='san', extra=['-DC14_GROUP=%d' % g] + FLT(g)) for g in SAN_GROUPS]
     return san + ([dict(name='h_c14_probe%d' % g, src='h_c14_probe.cpp', flavour='fast', extra=['-DC14_PROBE_GROUP=%d' % g]) for g in PROBE_GROUPS] +
-            [dict(name='h_c14_ext%d' % g, src='h_c14_ext.cpp', flavour='fast', extra=['-DC14_GROUP=%d' % g]) for g in EXT_GROUPS] +
+            [dict(name='h_c14_ext%d' % g, src='h_c14_ext.cpp', flavour='fast', extra=['-DC14_GROUP=%d' % g] + FLT(g)) for g in EXT_GROUPS] +
             [dict(name='h_c14_fn%d' % g, src='h_c14_fn.cpp', flavour='fast', extra=['-DC14_FN_GROUP=%d' % g]) for g in FN_GROUPS])
 
 
@@ -222,6 +227,8 @@ def probe_cases(tier, rng):
 def leaf(shape, j, data):
     n = prod(shape)
     k = np.arange(n, dtype=np.int64)
+    if data == 'float':          # multiples of 0.5 in [-3, 3], binary32 (mirror of c13::leaf_value)
+        return (0.5 * ((k * 7 + 3 * j) % 13) - 3.0).astype(np.float32).reshape(shape)
     if data == 'cond' and j == 0:
         v = (k % 3 != 1).astype(np.int64)
     else:
@@ -250,6 +257,30 @@ OPS = {
     'reduce_add_all': lambda x, p: np.sum(x[0]),
     'reduce_max_all': lambda x, p: np.max(x[0]),
 }
+F32 = np.float32
+
+
+def _celu(x, a):
+    with np.errstate(over='ignore'):
+        return np.maximum(F32(0), x) + np.minimum(F32(0), a * (np.exp(x / a) - F32(1)))
+
+
+def _softplus(x, beta, thr):
+    with np.errstate(over='ignore'):
+        return np.where(x * beta > thr, x, np.log(F32(1) + np.exp(x * beta)) / beta).astype(np.float32)
+
+
+# unary ufuncs whose op carries RUN-TIME PARAMETERS (view/activations/*.hpp); term syntax `name[p;q](x)`, binary32 arithmetic
+POPS = {
+    'leaky_relu': lambda x, q: np.where(x >= 0, x, q[0] * x).astype(np.float32),
+    'prelu': lambda x, q: np.where(x >= 0, x, q[0] * x).astype(np.float32),
+    'elu': lambda x, q: np.where(x > 0, x, q[0] * (np.exp(np.minimum(x, F32(0))) - F32(1))).astype(np.float32),
+    'celu': lambda x, q: _celu(x, q[0]).astype(np.float32),
+    'hardtanh': lambda x, q: np.where(x < q[0], q[0], np.where(x > q[1], q[1], x)).astype(np.float32),
+    'softplus': lambda x, q: _softplus(x, q[0], q[1]),
+    'hardshrink': lambda x, q: np.where((x >= -q[0]) & (x <= q[0]), F32(0), x).astype(np.float32),
+    'softshrink': lambda x, q: np.where(x > q[0], x - q[0], np.where(x < -q[0], x + q[0], F32(0))).astype(np.float32),
+}
 PSEUDO = {'bcast', 'reshape_v', 'concatenate0'}      # python-only helper nodes (no functor of their own / a different functor structure)
 NUMBER_VALUED = {'reduce_add_all', 'reduce_max_all'}
 
@@ -275,6 +306,9 @@ def eval_term(t, env, params):
     if not args:
         m = re.fullmatch(r'[xas]?(\d+)', name)
         return env[int(m.group(1))]
+    if '[' in name:              # parametrised op: `leaky_relu[3]`, `hardtanh[-0.5;0.75]`
+        base, ps = name[:-1].split('[', 1)
+        return POPS[base](np.asarray(eval_term(args[0], env, params), dtype=np.float32), [F32(float(v)) for v in ps.split(';')])
     return OPS[name]([eval_term(a, env, params) for a in args], params)
 
 
@@ -472,12 +506,38 @@ def _ext_progs():
     add('sub_lit_neg_x', 13, 'subtract(s0,negative(1))', g_lit_x, nonfirst=True)
     add('where_maxall', 13, 'where(bcast(reduce_max_all(0)),bcast(1),bcast(2))', g_where_num, nonfirst=True)
     add('where_lit', 13, 'where(bcast(s0),bcast(1),bcast(2))', g_where_lit, nonfirst=True)
+    # ---- unary ufuncs whose op carries RUN-TIME PARAMETERS (float leaves): the extracted functor gets the op — and with it the
+    #      parameter — through ufunc_t::attributes() only.  Two NON-DEFAULT values per op (quarter units), one far from the default,
+    #      taken in turn.  Tree templates: {i} = parameter i ----
+    def pgen(values, shapes_of):
+        cyc = itertools.cycle(values)
+        def g(rng):
+            shapes, params = shapes_of(rng)
+            params = dict(params); params['pq'] = list(next(cyc)); return shapes, params
+        return g
+    one = lambda rng: ([rshape(rng)], {})
+    ACT = [('leaky', 'leaky_relu[{0}]', [(2,), (12,)]), ('elu', 'elu[{0}]', [(2,), (10,)]), ('celu', 'celu[{0}]', [(2,), (10,)]),
+           ('hardtanh', 'hardtanh[{0};{1}]', [(-2, 3), (-10, 8)]), ('softplus', 'softplus[{0};{1}]', [(8, 2), (2, 4)]),
+           ('hardshrink', 'hardshrink[{0}]', [(1,), (8,)]), ('softshrink', 'softshrink[{0}]', [(1,), (5,)]), ('prelu', 'prelu[{0}]', [(2,), (16,)])]
+    for short, term, vals in ACT:
+        add('act_' + short, 14, term + '(0)', pgen(vals, one), data='float', graph=(short == 'leaky'))
+    LK = [(2,), (12,)]
+    add('neg_leaky', 15, 'negative(leaky_relu[{0}](0))', pgen(LK, one), data='float')
+    add('leaky_add', 15, 'leaky_relu[{0}](add(0,1))', pgen(LK, g_bin), data='float')
+    add('add_leaky_x', 15, 'add(leaky_relu[{0}](0),1)', pgen(LK, g_bin), data='float', bview=True)
+    add('add_x_leaky', 15, 'add(0,leaky_relu[{0}](1))', pgen(LK, g_bin), data='float', nonfirst=True)
+    add('mul_x_hardshrink', 15, 'multiply(0,hardshrink[{0}](1))', pgen([(1,), (8,)], g_bin), data='float', nonfirst=True)
+    add('hardtanh_mul_elu_x', 15, 'hardtanh[{1};{2}](multiply(elu[{0}](0),1))', pgen([(10, -2, 3), (2, -10, 8)], g_bin), data='float', bview=True)
+    add('sum_softshrink', 15, 'reduce_add(softshrink[{0}](0))', pgen([(1,), (5,)], g_axis), data='float')
+    add('prelu_tr', 15, 'prelu[{0}](transpose(0))', pgen([(2,), (16,)], g_tr), data='float')
+    add('celu_neg_softplus', 15, 'celu[{2}](negative(softplus[{0};{1}](0)))', pgen([(8, 2, 10), (2, 4, 2)], one), data='float')
     return pr
 
 
+FLOAT_GROUPS = [14, 15]          # TUs with float leaves (-DC13_ELEM_FLOAT): elements printed as binary32 bit patterns
 EXT = _ext_progs()
-EXT_GROUPS = [1, 2, 3, 4, 5, 6, 7, 8, 9, 10, 11, 12, 13]
-SAN_GROUPS = [2, 3, 5, 6, 7, 8, 10, 11, 12, 13]      # the groups with binary ufuncs over view operands / depth 3-4 trees
+EXT_GROUPS = [1, 2, 3, 4, 5, 6, 7, 8, 9, 10, 11, 12, 13, 14, 15]
+SAN_GROUPS = [2, 3, 5, 6, 7, 8, 10, 11, 12, 13, 15]      # the groups with binary ufuncs over view operands / depth 3-4 trees
 
 
 def parse_kv(ans):
@@ -493,7 +553,28 @@ def fmt_arr(x):
     return fmt(list(x.shape)) + '|' + fmt([int(v) for v in x.reshape(-1)])
 
 
-def make_extract_cmp(env, params):
+def fmt_arr_f(x):
+    """binary32 array as shape|bit patterns (int32), the way the float harness TUs print elements"""
+    x = np.ascontiguousarray(np.asarray(x, dtype=np.float32))
+    return fmt(list(x.shape)) + '|' + fmt([int(v) for v in x.reshape(-1).view(np.int32)])
+
+
+def decode_f(sd):
+    """shape|bit patterns -> (shape string, float array)"""
+    sh, data = sd.split('|')
+    codes = [] if data in ('[]', '') else [int(v) for v in data.split(',')]
+    return sh, np.array(codes, dtype=np.int64).astype(np.int32).view(np.float32).astype(np.float64)
+
+
+def close_f(a, b):
+    try:
+        (sa, xa), (sb, xb) = decode_f(a), decode_f(b)
+    except Exception:
+        return a == b
+    return sa == sb and xa.shape == xb.shape and bool(np.allclose(xa, xb, rtol=2e-5, atol=2e-6))
+
+
+def make_extract_cmp(env, params, flt=False):
     """answers are compared on the keys both sides know: leaves, nfun, result (= what extraction + apply computes),
     host (= host evaluation of the view).  Symbolic terms (Lean model) are evaluated with NumPy here."""
     def canon(ans):
@@ -507,7 +588,7 @@ def make_extract_cmp(env, params):
         if 'term' in d:          # model: symbolic
             for key, src in (('result', 'term'), ('host', 'view')):
                 try:
-                    c[key] = fmt_arr(eval_term(parse_term(d[src]), env, params))
+                    c[key] = (fmt_arr_f if flt else fmt_arr)(eval_term(parse_term(d[src]), env, params))
                 except Exception as e:
                     c[key] = 'error'
         else:
@@ -523,6 +604,8 @@ def make_extract_cmp(env, params):
         ca, cb = canon(a), canon(b)
         if 'raw' in ca or 'raw' in cb:
             return a == b
+        if flt:      # element values are binary32 bit patterns: compared as numbers, within float tolerance
+            return all((close_f(ca[k], cb[k]) if k in ('result', 'host') else ca[k] == cb[k]) for k in ca if k in cb)
         return all(ca[k] == cb[k] for k in ca if k in cb)
     return cmp
 
@@ -598,12 +681,15 @@ def fmt_params(p):
 def ext_cases(tier, rng):
     ncase = 4 if tier == 'quick' else 30
     for name, pg in EXT.items():
-        t = parse_term(pg['tree'])
         h = 'h_c14_ext%d' % pg['group']
+        flt = pg['data'] == 'float'
         made = tries = 0
         while made < ncase and tries < 10 * ncase:
             tries += 1
             shapes, params = pg['gen'](rng)
+            # run-time parameters of parametrised ops (`pq`, quarter units) are part of the term: leaky_relu[{0}](0) -> leaky_relu[3](0)
+            tree = pg['tree'].format(*['%g' % (q / 4.0) for q in params['pq']]) if 'pq' in params else pg['tree']
+            t = parse_term(tree)
             env = [leaf(s, j, pg['data']) for j, s in enumerate(shapes)]
             for j in tree_literals(t):
                 env[j] = np.int64(params['lit'])
@@ -619,13 +705,13 @@ def ext_cases(tier, rng):
             # fn::apply demands (static_assert) that the arity of the extracted function is the number of extracted operands
             # … and one functor per operation of the view tree (Props.C14.compile_one_functor_per_op)
             nf = pg['nfun'] if pg['nfun'] is not None else tree_ops(t)
-            oracle = 'ok leaves=%s arity=%d%s result=%s' % (fmt(tree_leaves(t)), len(tree_leaves(t)), '' if nf is None else ' nfun=%d' % nf, fmt_arr(res))
-            yield Case(req, h, dom=not off, oracle=oracle, mreq='c14_extract tree=%s' % pg['tree'], cmp=make_extract_cmp(env, params),
+            oracle = 'ok leaves=%s arity=%d%s result=%s' % (fmt(tree_leaves(t)), len(tree_leaves(t)), '' if nf is None else ' nfun=%d' % nf, (fmt_arr_f if flt else fmt_arr)(res))
+            yield Case(req, h, dom=not off, oracle=oracle, mreq='c14_extract tree=%s' % tree, cmp=make_extract_cmp(env, params, flt),
                        tags=['extract', 'prog=' + name, 'depth=%d' % tree_depth(t)] + (['nonfirst'] if pg['nonfirst'] else []) + (['bview'] if pg['bview'] else [])
-                            + (['number-valued-view'] if has_number_valued(t) else []) + (['literal-operand'] if tree_literals(t) else []))
+                            + (['number-valued-view'] if has_number_valued(t) else []) + (['literal-operand'] if tree_literals(t) else []) + (['parametrised-op'] if 'pq' in params else []))
             if pg['graph'] and made <= 2:
                 greq = ' '.join(('c14_graph prog=%s shapes=%s %s data=%s' % (name, fmt_lists(shapes), fmt_params(params), pg['data'])).split())
-                yield Case(greq, h, dom=not pg['sibling'], oracle=ideal_graph(t), mreq='c14_graph tree=%s' % pg['tree'], cmp=graph_cmp,
+                yield Case(greq, h, dom=not pg['sibling'], oracle=ideal_graph(t), mreq='c14_graph tree=%s' % tree, cmp=graph_cmp,
                            tags=['graph', 'prog=' + name, 'depth=%d' % tree_depth(t)] + (['sibling'] if pg['sibling'] else []))
     # generate_alias: the hash behind the node ids
     for i in range(40 if tier == 'quick' else 400):
